@@ -402,6 +402,10 @@ def check(prop, tier, seed):
                       "observed": obs,
                       "expected": {"ok": exp["ok"], "words": ["%04x" % w for w in exp["w"]]}}, matcher)
         v.summary(lambda x: (x["mn"], x["device"], x["observed"]["r"], "expected " + ("ok" if x["expected"]["ok"] else "err")))
+        mc = None
+        if prop == "C01" and tier == "thorough":
+            mc = model_check("MC_Isa", scratch, workers=8, xmx="8g", coverage=False)
+            mc["theorems"] = "RoundTrip: Decode(Encode(i)) = Canon(i); WordRange; LenOK -- over every legal form (two-word address spaces: boundary set)"
         nontrivial = len({(c["mn"], json.dumps(c["ops"], sort_keys=True), c["device"]) for c in cases})
         per_mn = {}
         for c in cases:
@@ -417,7 +421,7 @@ def check(prop, tier, seed):
             "expected_err": sum(1 for i, e in enumerate(events) if e["res"] == "err" and i not in rejected),
             "rejected_events": len([i for i in rejected if i < len(events)]),
             "binding_selftest": "%d/%d corrupted events rejected" % (ncan, len(can)),
-            "tlc": stats, "harness_build_s": round(build_s, 1),
+            "tlc": stats, "harness_build_s": round(build_s, 1), "model_checking_of_spec": mc or "MC_Isa runs in the thorough tier",
             "exhaustive": prop == "C13" or (prop == "C01"),
             "exhaustive_note": "complete for all one-word forms; lds/sts 16-bit and jmp/call 22-bit address spaces are boundary + seeded random",
             "samples": [{"source": source_of(cases[i]), "event": events[i]} for i in
